@@ -26,7 +26,19 @@ struct WavSpec {
 	bool chunkBeforeFmt = false, chunkBetween = false, chunkAfterData = false;
 	uint32_t fmtSize = 16;           // 16 (no cbSize) or 18 (cbSize present)
 	uint16_t cbSizeValue = 0;        // value stored in cbSize when fmtSize == 18
+	bool decoys = false;             // the extra chunks carry bytes that look like 'data' / 'fmt ' chunk headers (the one before
+	                                 // 'fmt ' puts a 'data' header at file offset 36, where a file without extra chunks has it)
 };
+
+inline std::vector<uint8_t> extraChunkBody(const WavSpec& w, int which)   // 0 before 'fmt ', 1 between, 2 after the data
+{
+	if (!w.decoys) return which == 0 ? std::vector<uint8_t>{ 1, 2, 3, 4 } : which == 1 ? std::vector<uint8_t>{ 9, 9 } : std::vector<uint8_t>{ 7, 7, 7, 7, 7, 7 };
+	std::vector<uint8_t> b;
+	if (which == 0) { for (int i = 0; i < 16; ++i) b.push_back(uint8_t(0xA1 + i)); mc::putStr(b, "data"); mc::put32(b, 4); for (int i = 0; i < 8; ++i) b.push_back(uint8_t(0x22 + i)); }
+	else if (which == 1) { mc::putStr(b, "data"); mc::put32(b, 2); b.push_back(0x55); b.push_back(0x66); }
+	else { mc::putStr(b, "data"); mc::put32(b, 0); mc::putStr(b, "fmt "); mc::put32(b, 16); for (int i = 0; i < 4; ++i) b.push_back(uint8_t(0x33 + i)); }
+	return b;
+}
 
 inline void putChunk(std::vector<uint8_t>& v, const char* tag, const std::vector<uint8_t>& body)
 {
@@ -37,14 +49,14 @@ inline std::vector<uint8_t> encodeWav(const WavSpec& w)
 {
 	std::vector<uint8_t> body;
 	mc::putStr(body, "WAVE");
-	if (w.chunkBeforeFmt) putChunk(body, "LIST", { 1, 2, 3, 4 });
+	if (w.chunkBeforeFmt) putChunk(body, "LIST", extraChunkBody(w, 0));
 	std::vector<uint8_t> f;
 	mc::put16(f, w.fmt.tag); mc::put16(f, w.fmt.channels); mc::put32(f, w.fmt.rate); mc::put32(f, w.fmt.avgBytes); mc::put16(f, w.fmt.blockAlign); mc::put16(f, w.fmt.bits);
 	if (w.fmtSize >= 18) mc::put16(f, w.cbSizeValue);
 	putChunk(body, "fmt ", f);
-	if (w.chunkBetween) putChunk(body, "fact", { 9, 9 });
+	if (w.chunkBetween) putChunk(body, "fact", extraChunkBody(w, 1));
 	putChunk(body, "data", w.data);
-	if (w.chunkAfterData) putChunk(body, "cue ", { 7, 7, 7, 7, 7, 7 });
+	if (w.chunkAfterData) putChunk(body, "cue ", extraChunkBody(w, 2));
 	std::vector<uint8_t> v;
 	mc::putStr(v, "RIFF"); mc::put32(v, uint32_t(body.size())); v.insert(v.end(), body.begin(), body.end());
 	return v;
